@@ -80,7 +80,12 @@ func (k Keeper) ChangeExecutor(ctx context.Context, plan types.ExecutorChangePla
 		return err
 	}
 	params.BridgeExecutors = plan.NextExecutors
-	if err := k.SetParams(ctx, params); err != nil {
+
+	// only the executor list changes (its addresses were validated when the
+	// plan was registered); do not go through SetParams, whose max-validators
+	// check would fail the block while the replaced validators are still
+	// stored with zero power.
+	if err := k.Params.Set(ctx, params); err != nil {
 		return err
 	}
 	return nil
